@@ -112,7 +112,8 @@ fn laws_check(src: &mut Src) -> CaseResult {
         6 => ("del-is-update-empty", format!("del({p})"), format!("({p}) |= empty"), Cmp::Same, true),
         7 => ("delpaths-is-sequential", format!("delpaths([path({p})])"), format!("[path({p})] as $ps | reduce $ps[] as $q (.; del(getpath($q)))"), Cmp::Same, true),
         8 => ("setpath-is-getpath-assign", format!("[first(path({p}))] as [$q] | if $q == null then . else setpath($q; {}) end", "$g"), format!("[first(path({p}))] as [$q] | if $q == null then . else getpath($q) = $g end"), Cmp::Same, true),
-        9 => ("pick-of-comma-is-product", format!("pick(({p}), ({q}))"), format!("pick({p}) * pick({q})"), Cmp::Same, false),
+        // pick is documented for paths to objects only (with array positions `*` is not associative)
+        9 => ("pick-of-comma-is-product", format!("([path(({p}), ({q}))] | all(.[][]; isstring)) as $ok | if $ok then pick(({p}), ({q})) else \"skip\" end"), format!("([path(({p}), ({q}))] | all(.[][]; isstring)) as $ok | if $ok then pick({p}) * pick({q}) else \"skip\" end"), Cmp::Same, false),
         10 => ("update-of-pipe", format!("(({p}) | ({q})) |= ({u})"), format!("({p}) |= (({q}) |= ({u}))"), Cmp::Same, true),
         11 => ("update-of-comma", format!("(({p}), ({q})) |= ({u})"), format!("(({p}) |= ({u})) | (({q}) |= ({u}))"), Cmp::Same, true),
         12 => ("update-of-empty-is-identity", format!("empty |= ({u})"), ".".into(), Cmp::Same, true),
@@ -214,29 +215,43 @@ fn small_inputs() -> Vec<MVal> {
     gen::enum_trees(&[MVal::Null, int(0), tstr("a")], &[tstr("a"), tstr("b")], 4)
 }
 
-/// kinds of obligations per (expression, input): 0 = path vs REF, 1 = getpath(path) law, 2.. = update vs REF
+/// One case = one program (expression x obligation kind: 0 = path vs REF, 1 = getpath(path) law,
+/// 2.. = update vs REF) on *all* inputs, so that the program is compiled once.
 fn small_case(exprs: &[String], inputs: &[MVal], k: u64, sample: bool) -> CaseResult {
     let nk = 2 + SMALL_UPDATES.len() as u64;
-    let ni = inputs.len() as u64;
-    let e = &exprs[(k / (nk * ni)) as usize];
-    let kind = (k / ni) % nk;
-    let input = &inputs[(k % ni) as usize];
-    match kind {
-        0 => c01::check_text_nt(&format!("path({e})"), &["small-path"], None, &MVal::Null, input, sample),
-        1 if e.contains("//") => Ok(CaseOk::trivial().class("skipped-alternation-in-getpath-law")),
-        1 => {
-            let (lhs, rhs) = (format!("getpath(path({e}))"), e.clone());
-            match laws::equation(&lhs, &rhs, &[("g", &MVal::Null)], input, Cmp::Same, true) {
-                Verdict::Inconclusive => Ok(CaseOk::trivial().class("discarded-time-limit")),
-                Verdict::Differ(m) => Err(CaseFail::new("small-getpath-of-path-reproduces-p", m, json!({"lhs": lhs, "rhs": rhs, "input": input.show()}))),
-                Verdict::Agree(o) => Ok(CaseOk::new(!o.is_empty(), fnv_str(&[&lhs, &input.show()])).class("small-getpath-law").desc(if sample { Some(json!({"lhs": lhs, "rhs": rhs, "input": input.show()})) } else { None })),
+    let e = &exprs[(k / nk) as usize];
+    let kind = k % nk;
+    let mut keys = Vec::new();
+    let mut classes: std::collections::BTreeSet<&'static str> = std::collections::BTreeSet::new();
+    let mut desc = None;
+    for (ii, input) in inputs.iter().enumerate() {
+        let s = sample && ii == 7;
+        let r = match kind {
+            0 => c01::check_text_nt(&format!("path({e})"), &["small-path"], None, &MVal::Null, input, s),
+            1 if e.contains("//") => Ok(CaseOk::trivial().class("skipped-alternation-in-getpath-law")),
+            1 => {
+                let (lhs, rhs) = (format!("getpath(path({e}))"), e.clone());
+                match laws::equation(&lhs, &rhs, &[("g", &MVal::Null)], input, Cmp::Same, true) {
+                    Verdict::Inconclusive => Ok(CaseOk::trivial().class("discarded-time-limit")),
+                    Verdict::Differ(m) => Err(CaseFail::new("small-getpath-of-path-reproduces-p", m, json!({"lhs": lhs, "rhs": rhs, "input": input.show()}))),
+                    Verdict::Agree(o) => Ok(CaseOk::new(!o.is_empty(), fnv_str(&[&lhs, &input.show()])).class("small-getpath-law").desc(if s { Some(json!({"lhs": lhs, "rhs": rhs, "input": input.show()})) } else { None })),
+                }
             }
+            _ => {
+                let u = SMALL_UPDATES[(kind - 2) as usize];
+                c01::check_text_nt(&format!("({e}) |= ({u})"), &["small-update"], None, &MVal::Null, input, s)
+            }
+        }?;
+        if r.nontrivial {
+            keys.push(r.key);
         }
-        _ => {
-            let u = SMALL_UPDATES[(kind - 2) as usize];
-            c01::check_text_nt(&format!("({e}) |= ({u})"), &["small-update"], None, &MVal::Null, input, sample)
+        classes.extend(r.classes.iter().copied());
+        if r.desc.is_some() {
+            desc = r.desc;
         }
     }
+    let cl: Vec<&'static str> = classes.into_iter().collect();
+    Ok(CaseOk::new(false, 0).classes(&cl).desc(desc).bundle(inputs.len() as u64, keys))
 }
 
 pub fn run(mut rep: Report) -> ! {
@@ -252,17 +267,17 @@ pub fn run(mut rep: Report) -> ! {
     vcore::refi::KNOWN_SINGLE_INTERP.store(rep.is_known(c01::SIG_SINGLE_INTERP) || rep.env.known.has("C01", c01::SIG_SINGLE_INTERP), std::sync::atomic::Ordering::SeqCst);
     let n = rep.n(40_000, 3_000_000);
     rep.random("ref-differential", n, 160, ref_differential);
-    rep.random("laws", n, 160, laws_check);
+    rep.random("laws", n * 5 / 8, 160, laws_check);
     let exprs = small_exprs();
     let inputs = small_inputs();
     let nk = 2 + SMALL_UPDATES.len() as u64;
-    let total = exprs.len() as u64 * nk * inputs.len() as u64;
+    let total = exprs.len() as u64 * nk;
     rep.extra("small_scope_expressions", json!(exprs.len()));
     rep.extra("small_scope_inputs", json!(inputs.len()));
     {
         let (exprs, inputs) = (&exprs, &inputs);
-        // quick: a stride through the product (offset by the seed); thorough: all of it
-        let stride = if rep.quick() { 211 } else { 1 };
+        // quick: every 97th program (offset by the seed), each on all inputs; thorough: all programs
+        let stride = if rep.quick() { 23 } else { 1 };
         rep.indexed("small-scope", total, stride, true, move |k, s| small_case(exprs, inputs, k, s));
     }
     rep.extra("excluded_known_in_reference", json!(vcore::refi::EXCLUDED_KNOWN.load(std::sync::atomic::Ordering::Relaxed)));
